@@ -68,6 +68,8 @@ func (s *PythonIdentListener) EnterFrom_stmt(ctx *parser.From_stmtContext) {
 	if asNameCtx.OPEN_PAREN() != nil {
 		usageName = asNameCtx.Import_as_names().GetText()
 	}
+	// from pkg import (first, second,): the trailing comma names nothing
+	usageName = strings.TrimSuffix(usageName, ",")
 	if strings.Contains(usageName, ",") {
 		usageNames := strings.Split(usageName, ",")
 		codeImport.UsageName = append(codeImport.UsageName, usageNames...)
